@@ -17,7 +17,8 @@
 (*                useOwn  it uses its own settings,                        *)
 (*                filt    its own "filtering enabled",                     *)
 (*                svc     "inherit" | "none" | "active" | "paused"],       *)
-(*       aaaaOff BOOLEAN  AAAA resolving disabled (C02: IPv6 hints)]       *)
+(*       aaaaOff BOOLEAN  AAAA resolving disabled (C02: IPv6 hints),       *)
+(*       cache   BOOLEAN  the proxy's response cache is on]                *)
 (* req  [name, qtype \in {"A","AAAA","HTTPS","TXT"}, client \in {c1,c2}]   *)
 (* c2 is never a persistent client.                                        *)
 (*                                                                         *)
@@ -107,7 +108,11 @@ CheckHost(cfg, req) ==
 \* An upstream answer is a sequence of abstract resource records
 \*   [t |-> "CNAME", n |-> name] | [t |-> "A"|"AAAA", a |-> token]
 \* | [t |-> "HTTPS", h4 |-> seq of tokens, h6 |-> seq of tokens] | [t |-> "TXT"]
-\* (all with the fields t, n, a, h4, h6).
+\* (all with the fields t, o, n, a, h4, h6).  o is the owner name of the record
+\* (<<>> = the question name).  The statement says "wherever in the answer
+\* section the offending record sits ... in any order": neither the position
+\* nor the owner of a record matters, so no operator below reads o; it is
+\* part of the vector so that the harness renders exactly that section.
 \* The (host, rrtype) pairs dnsforward.filterDNSResponse looks up for one RR.
 RRChecks(rr, aaaaOff) ==
     CASE rr.t = "CNAME" -> <<[h |-> NameHost(rr.n), t |-> "CNAME"]>>
@@ -148,8 +153,14 @@ RRHostsFlag(cfg, req, rr) ==
 \*   ips, hosts   see MatchHost
 \*   sProt, sFilt settings snapshot taken by Initial
 \*   ans     the upstream's answer section
+\*   hit     this question was asked on this server before, the response cache
+\*           is on and it serves the stored upstream answer this time (the
+\*           statement does not say when a cache keeps an answer, so a repeated
+\*           question may be a hit or not; see VerdictRepeat)
 P0 == [stage |-> "before", set |-> FALSE, local |-> FALSE, cls |-> Up, upLog |-> <<>>,
-       why |-> "N", ips |-> {}, hosts |-> FALSE, sProt |-> FALSE, sFilt |-> FALSE, ans |-> <<>>]
+       why |-> "N", ips |-> {}, hosts |-> FALSE, sProt |-> FALSE, sFilt |-> FALSE, ans |-> <<>>,
+       hit |-> FALSE]
+P0Hit == [P0 EXCEPT !.hit = TRUE]
 
 \* One stage.  ups = the answers the upstream may give.  Returns the set of
 \* successor records (several only where the statement leaves a choice).
@@ -169,6 +180,11 @@ Step(cfg, req, p, ups) ==
                  : m \in CheckHost(cfg, req)}
       [] p.stage = "upstream" ->        \* processUpstream: only without a response
             IF p.set THEN {[p EXCEPT !.stage = "filterafter"]}
+            ELSE IF p.hit                 \* served from the response cache: the stored
+                                          \* upstream answer, no exchange -- and it is
+                                          \* still an upstream answer for FilterAfter
+            THEN {[p EXCEPT !.stage = "filterafter", !.set = TRUE, !.local = FALSE, !.cls = Up,
+                            !.ans = ua] : ua \in ups}
             ELSE {[p EXCEPT !.stage = "filterafter", !.set = TRUE, !.local = FALSE, !.cls = Up,
                             !.upLog = Append(p.upLog, req.name), !.ans = ua] : ua \in ups}
       [] p.stage = "filterafter" ->     \* processFilteringAfterResponse
@@ -198,6 +214,21 @@ Outcome(p) == [why |-> p.why, c |-> p.cls.c, a |-> p.cls.a, calls |-> Len(p.upLo
 
 \* The admissible outcomes for one request when the upstream answers ua.
 Verdict(cfg, req, ua) == {Outcome(p) : p \in RunSet(cfg, req, {ua}, {P0})}
+\* ... and for a question that was asked on this server before (under this or
+\* an EARLIER configuration): the verdict depends on the CURRENT configuration
+\* only; with the response cache on the stored answer may be used instead of
+\* a new exchange, and it is filtered like a fresh one.
+VerdictHit(cfg, req, ua) == {Outcome(p) : p \in RunSet(cfg, req, {ua}, {P0Hit})}
+VerdictRepeat(cfg, req, ua) ==
+    IF cfg.cache THEN Verdict(cfg, req, ua) \cup VerdictHit(cfg, req, ua) ELSE Verdict(cfg, req, ua)
+\* What an outcome would have been with a fresh exchange (for the statements,
+\* which count exchanges).
+AsFetched(o, hit) == IF hit /\ (o.c = "up" \/ o.why = "R") THEN [o EXCEPT !.calls = 1] ELSE o
+\* The second answer equals the first: a repeat differs from a first-time
+\* outcome at most in the number of exchanges.
+Answer(o) == [why |-> o.why, c |-> o.c, a |-> o.a]
+RepeatEqualsFirst(cfg, req, ua) ==
+    {Answer(o) : o \in VerdictRepeat(cfg, req, ua)} = {Answer(o) : o \in Verdict(cfg, req, ua)}
 
 \* ------------------------------------------- the statements, declaratively
 \* Written from the sentences of C01/C02 and NOT through Step/MatchHost, so
